@@ -265,6 +265,31 @@ def run(ctx: Ctx) -> None:
         mcfg = cfg_of(m)
         ref_calls = {unparse(x) for x in m.own_nodes() if isinstance(x, ast.Call) and isinstance(x.func, ast.Attribute) and x.func.attr == "ref" and not x.args}
         ref_tests = [x for x in m.own_nodes() if isinstance(x, ast.Compare) and len(x.ops) == 1 and isinstance(x.ops[0], (ast.In, ast.NotIn)) and unparse(x.left) in ref_calls]
+        # ... and a reference that a codec holds is never given to another one: blobs written by the first codec (their metadata names the reference) would be
+        # read back by the second.  Every store `<reference table>[<codec>.ref()] = <codec>` of a registration method is unreachable when the reference is taken.
+        ref_stores = [x for x in m.own_nodes() if isinstance(x, ast.Subscript) and isinstance(x.ctx, ast.Store) and isinstance(x.slice, ast.Call)
+                      and isinstance(x.slice.func, ast.Attribute) and x.slice.func.attr == "ref" and not x.slice.args]
+        for rs in ref_stores:
+            n6 += 1
+            st_ = prog.enclosing_stmt(m.module, rs)
+            desc = f"{name}: `{unparse(st_, 50)}` never replaces the codec that holds the reference"
+            tbl_ = unparse(rs.value)
+            tests_ = [x for x in ref_tests if unparse(x.comparators[0]) == tbl_]
+            reach = True
+            if tests_:
+                def _atom0(e: ast.AST, tbl_=tbl_) -> Optional[str]:
+                    if isinstance(e, ast.Compare) and len(e.ops) == 1 and isinstance(e.ops[0], (ast.In, ast.NotIn)) and unparse(e.left) in ref_calls and unparse(e.comparators[0]) == tbl_:
+                        return "ref-taken" if isinstance(e.ops[0], ast.In) else "!ref-taken"
+                    return None
+                from ..propdom import feasible_path as _fp6
+                reach = _fp6(prog, m, mcfg, mcfg.nodes_of(st_), {"ref-taken": True}, _atom0) is not None
+            if not reach:
+                rep.ok("C17.R6", m.qname, desc, m.loc(rs))
+            else:
+                rep.bad("C17.R6", m.qname, desc, m.loc(rs), [f"{m.loc(rs)}: the store is reached " + ("although" if tests_ else "and nothing asks whether") + f" `{unparse(rs.slice, 30)} in {tbl_}`",
+                        "a user codec whose ref() is 'local.string', registered after a text result was kept: the metadata of that blob names 'local.string', which now designates the user's "
+                        "codec - dds.load returns what that codec makes of the file, not the text (demo: /verif/findings/F46_add_codec_takes_reference.py)"],
+                        "reference-taken-over", what=f"{name} hands a reference that a codec holds to another codec: earlier blobs are read back by the wrong codec")
         if not ref_tests:
             continue
         ref_tbl = unparse(ref_tests[0].comparators[0])
